@@ -74,7 +74,25 @@ def _bparams(rng):
     return p
 
 
+def _gen_marathon(rng):
+    base = pools.gen_params(rng, "tiny")
+    opl = []
+    for i in range(rng.randint(300, 800)):
+        r = rng.random()
+        p = dict(base, seed=rng.choice([base["seed"], 1000 + rng.randint(0, 50)]), lt=rng.choice([base["lt"], pools.pct(rng)]))
+        if r < 0.8:
+            opl.append({"op": "board", "params": p})
+        elif r < 0.9:
+            opl.append({"op": "tenant", "what": rng.choice(["seed", "draw", "shuffle"]), "arg": rng.randint(0, 2 ** 32), "n": rng.randint(1, 20)})
+        else:
+            opl.append({"op": "gen_cli", "params": dict(p, width=min(p["width"], 2), length=min(p["length"], 2)),
+                        "same_process": True, "entropy": rng.randint(0, 2 ** 32)})
+    return {"cfg": {"klass": "marathon"}, "ops": opl}
+
+
 def gen(rng, tier, ctx):
+    if rng.random() < 0.01:
+        return _gen_marathon(rng)
     psets = [_bparams(rng) for _ in range(rng.randint(1, 4))]
     if rng.random() < 0.4:
         # a second parameter set that differs from the first only below one percent: same file name, other board
@@ -271,6 +289,16 @@ def execute(spec, w, ctx):
                     seen[key] = True
                     for v_ in mine.values():
                         states.append(h(v_))
+                    # same seed and parameters => same board, whichever entry point drew it: the board the
+                    # file depicts must be the one gen_rnd_board returns for these parameters
+                    drawn = [genops.board_from_preamble(v_) for v_ in mine.values()]
+                    rb_ = ctx.ref.call("board", {"params": p}, key=("board", key))
+                    if len(drawn) == 1 and drawn[0] is not None and rb_["status"] == "ok":
+                        w.probe("cli-board-compared-with-library-board")
+                        if canon(drawn[0]) != canon(tuple(dec(rb_["value"]))):
+                            v = viol("I15.2", i_op, "`roberta_generator.py %s` depicts the board %s in its file; gen_rnd_board(%s) returns %s" % (
+                                " ".join(ops.gen_argv(p)[1:]), short(drawn[0], 300), _pp(p), short(dec(rb_["value"]), 300)),
+                                "cli-board-differs-from-library-board")
         elif kind == "gen_cli_bad":
             out, before, after, changed, wopens = genops.run_gen(w, op, common.env_cfg(op))
             events.append([i_op, "gen_cli_bad", op.get("bad"), out["status"], out.get("etype"), changed, wopens])
